@@ -85,7 +85,7 @@ Proof. unfold recheck_selected. intros ->. reflexivity. Qed.
 
 Lemma selected_missing o r x sm : r_meta x = Some sm -> ws_meta (fs r) (r_path x) = None -> recheck_selected o r x = true.
 Proof.
-  intros Hm Hw. unfold recheck_selected, digest_diff. rewrite Hm, Hw. cbn. Show.
+  intros Hm Hw. unfold recheck_selected, digest_diff. rewrite Hm, Hw. destruct sm as [s0 m0]. cbn. apply orb_true_r.
 Qed.
 
 (* the method changes and the workspace file is not modified *)
@@ -140,7 +140,7 @@ Lemma committed_inode r p c : INV r -> committed r p c ->
 Proof.
   intros [F R] (e & x & d & Ef & Hm & Hd & Hr).
   apply (obj_read_spec _ _ _ F) in Hr. destruct Hr as (i & n & Ho & Hi & Hc).
-  destruct (r_meta x) as [sm|] eqn:E; [|congruence]. exists e, x, sm, d, i, n. auto.
+  destruct (r_meta x) as [sm|] eqn:E; [|congruence]. exists e, x, sm, d, i, n. repeat split; auto.
 Qed.
 
 (* C01 core: delete, then recheck with any options *)
@@ -149,11 +149,12 @@ Theorem restore_after_delete r p c o : INV r -> committed r p c ->
   ws_read (fs r1) p = Some c /\ committed r1 p c.
 Proof.
   intros I C. destruct (committed_inode r p c I C) as (e & x & sm & d & i & n & Ef & Hm & Hd & Ho & Hi & Hc).
-  cbv zeta. unfold run_items. cbn [fold_left]. cbn [do_item fst].
+  cbv zeta. unfold run_items. cbn [fold_left].
+  change (fst (do_item r (UDelete p))) with (set_fs r (user_delete (fs r) p)).
   set (r0 := set_fs r (user_delete (fs r) p)).
   assert (I0 : INV r0).
   { destruct I as [F R]. split; [apply FI_user_delete, F|now apply RI_set_fs]. }
-  assert (W0 : wget (fs r0) p = None) by (cbn; unfold user_delete; rewrite wget_wdel; now rewrite beqb_refl).
+  assert (W0 : wget (fs r0) p = None) by (unfold r0; rewrite set_fs_fs; unfold user_delete; rewrite wget_wdel; now rewrite beqb_refl).
   pose proof (proj1 (find_path_spec r p e x (proj2 I)) Ef) as [_ Hp].
   destruct (recheck_one_ok o r0 p e x sm d i n I0 Ef Hm Hd Ho Hi) as (K1 & [K2 K3] & K4).
   - eapply selected_missing; eauto. rewrite Hp. unfold ws_meta. now rewrite W0.
@@ -170,17 +171,18 @@ Theorem restore_after_damage r p c junk m : INV r -> committed r p c ->
   ws_read (fs r1) p = Some c /\ committed r1 p c.
 Proof.
   intros I C. destruct (committed_inode r p c I C) as (e & x & sm & d & i & n & Ef & Hm & Hd & Ho & Hi & Hc).
-  cbv zeta. unfold run_items. cbn [fold_left]. cbn [do_item fst].
+  cbv zeta. unfold run_items. cbn [fold_left].
+  change (fst (do_item r (UWrite p junk))) with (set_fs r (user_write (fs r) p junk)).
   set (o := {| k_method := m; k_force := true |}).
   set (r0 := set_fs r (user_write (fs r) p junk)).
   assert (I0 : INV r0).
   { destruct I as [F R]. split; [apply FI_user_write, F|now apply RI_set_fs]. }
   assert (Hi0 : iget (fs r0) i = Some n).
-  { cbn. rewrite user_write_eq. unfold alloc. autorewrite with fsdb.
+  { unfold r0. rewrite set_fs_fs, user_write_eq. unfold alloc. autorewrite with fsdb.
     destruct (N.eqb_spec (next_ino (fs r)) i) as [E|]; auto. apply (fi_bound (proj1 I)) in Hi. lia. }
   destruct (recheck_one_ok o r0 p e x sm d i n I0 Ef Hm Hd Ho Hi0) as (K1 & [K2 K3] & K4).
   - now apply selected_force.
-  - right. cbn. rewrite user_write_eq. unfold ws_exists. rewrite wget_wput, beqb_refl. now rewrite resolve_file.
+  - right. unfold r0. rewrite set_fs_fs, user_write_eq. unfold ws_exists. rewrite wget_wput, beqb_refl. now rewrite resolve_file.
   - destruct (do_recheck_single o r0 p) as [E1 E2]. rewrite E1. split; [congruence|].
     destruct (recheck_one_spec o r0 p (proj1 I0) (proj2 I0)) as (S1 & S2 & S3 & (W1 & W2 & W3 & W4 & W5) & _).
     exists e, (with_method x (recheck_method o x)), d. split; [auto|split; [cbn; congruence|split; [auto|]]].
@@ -200,4 +202,326 @@ Proof.
   - intros r0 p0 I0 _. destruct I0 as [F0 R0].
     destruct (recheck_one_spec o r0 p0 F0 R0) as (S1 & S2 & S3 & S4 & S5 & S6 & S7). split; [split; auto|auto].
   - clear. generalize r. induction ps; intros r0; cbn; auto.
+Qed.
+
+(* ---- a commit stores the content and materialises the entry ----------------------------------------------- *)
+Lemma carry_one_ok f p a m force :
+  FI f -> relink f p a force = false -> fits_pre f p a -> wget f p <> None -> no_dangling f p ->
+  snd (carry_one f p a m force) = Ok /\
+  exists i n, oget (fst (carry_one f p a m force)) a = Some (EFile i) /\
+              iget (fst (carry_one f p a m force)) i = Some n /\
+              materialised (fst (carry_one f p a m force)) p a m (i_bytes n) /\
+              (alias_meet f p a force = false -> forall c, ws_read f p = Some c -> i_bytes n = c).
+Proof.
+  intros F G Hfit Hw Hnd.
+  pose proof (commit_part_spec f p a force F G Hfit) as S.
+  rewrite carry_one_eq.
+  destruct (commit_part_cases f p a force F G) as [Hoa Hk | g j nj Hwj Hj Hgj Hs P | g Hw' P]; [| |congruence].
+  - (* kept *)
+    destruct (oget f a) as [e|] eqn:Eo; [|congruence].
+    destruct (fi_obj F _ _ Eo) as (i & n & -> & Hi & Hwr & Hf).
+    destruct (rfc_ok (cleared f p) p a m i n) as [K1 K2];
+      [apply FI_cleared, F|now autorewrite with fsdb|now autorewrite with fsdb|rewrite cleared_idem; now apply cleared_none|].
+    destruct (rfc_spec (cleared f p) p a m (FI_cleared _ _ F)) as (R1 & R2 & R3 & R4 & R5 & R6).
+    split; [auto|]. exists i, n. rewrite R3. autorewrite with fsdb.
+    split; [auto|split; [apply R4; now autorewrite with fsdb|split; [auto|]]].
+    intros Ha c Hc. unfold alias_meet in Ha.
+    assert (Er : obj_read f a = Some (i_bytes n)) by (apply obj_read_spec; eauto).
+    rewrite Er, Hc in Ha. apply negb_false_iff in Ha. destruct (beqb_spec c (i_bytes n)); congruence.
+  - (* moved *)
+    cbn [fst snd] in S. set (f1 := dput (oput (iput (wdel g p) j (ro nj)) a (EFile j)) (a_digest a) false) in *.
+    assert (W1 : wget f1 p = None) by (unfold f1; autorewrite with fsdb;
+                                        destruct (pre_state_facts _ _ _ _ F P) as (_ & Wg & _); now rewrite beqb_refl).
+    assert (C1 : cleared f1 p = f1) by (unfold cleared, ws_exists; now rewrite W1).
+    assert (O1 : oget f1 a = Some (EFile j)) by (unfold f1; autorewrite with fsdb; now rewrite caddr_eqb_refl).
+    assert (I1 : iget f1 j = Some (ro nj)) by (unfold f1; autorewrite with fsdb; now rewrite N.eqb_refl).
+    rewrite C1.
+    destruct (rfc_ok f1 p a m j (ro nj) (cs_FI S) O1 I1) as [K1 K2]; [now rewrite C1|].
+    destruct (rfc_spec f1 p a m (cs_FI S)) as (R1 & R2 & R3 & R4 & R5 & R6).
+    split; [auto|]. exists j, (ro nj). rewrite R3.
+    split; [auto|split; [now apply R4|split; [auto|]]].
+    intros _ c Hc. rewrite (ws_read_file f p j nj Hwj Hj) in Hc. now injection Hc as <-.
+Qed.
+
+(* what track records for a target it commits *)
+Lemma track_one_record o w r p a m : RI r -> track_one_call o w r p = Some (a, m) ->
+  exists e x d, find_path (recs (fst (track_one o w r p))) p = Some (e, x) /\ r_path x = p /\ r_meta x <> None /\
+                r_digest x = Some d /\ a = cache_addr p d /\ r_method x = m /\ m = track_method o r /\
+                no_dangling (fs r) p.
+Proof.
+  intros R. unfold track_one, track_one_call. cbv zeta.
+  change (match wget (fs r) p with Some (ELink _) => true | _ => false end) with (is_link_entry (fs r) p).
+  fold (track_method o r). fold (track_tob o r).
+  destruct (w && is_link_entry (fs r) p); [discriminate|].
+  destruct (ws_meta (fs r) p) as [sm|] eqn:Em; [|discriminate].
+  assert (Hnd : no_dangling (fs r) p).
+  { right. unfold ws_meta in Em. unfold ws_exists. destruct (wget (fs r) p); [|discriminate].
+    destruct (resolve (fs r) link_fuel e); [auto|discriminate]. }
+  destruct (find_path (recs r) p) as [[e x]|] eqn:Ef.
+  - pose proof (proj1 (find_path_spec r p e x R) Ef) as [Hg Hp].
+    destruct (meta_eqb (r_meta x) (Some sm)); [discriminate|].
+    assert (Put : forall x', r_path x' = p -> find_path (recs (rput r e x')) p = Some (e, x')).
+    { intros x' Hx'. rewrite <- Hp. apply find_path_rput_same; auto. congruence. }
+    destruct (digest_diff r x (cfg_algo r) (track_tob o r)) as [| |d| |d]; try discriminate;
+      (destruct (t_no_commit o); [discriminate|]); intros [= <- <-];
+      destruct (carry_one (fs r) p (cache_addr p d) (track_method o r) (t_force o)) as [f2 oc]; cbn [fst recs set_fs];
+      rewrite Put by reflexivity; eexists _, _, d; cbn;
+      (split; [reflexivity|split; [reflexivity|split; [discriminate|split; [reflexivity|auto]]]]).
+  - destruct (ws_read (fs r) p) as [c|] eqn:Er; [|discriminate].
+    destruct (t_no_commit o); [discriminate|]. intros [= <- <-].
+    set (x0 := {| r_path := p; r_meta := Some sm; r_digest := Some (digest_of (cfg_algo r) (track_tob o r) c);
+                  r_hist := [digest_of (cfg_algo r) (track_tob o r) c]; r_method := track_method o r; r_tob := track_tob o r |}).
+    change {| fs := fs r; recs := put N.eqb N.ltb (recs r) (next_ent r) x0; next_ent := N.succ (next_ent r);
+              cfg_algo := cfg_algo r; cfg_method := cfg_method r; cfg_tob := cfg_tob r |} with (radd r x0).
+    destruct (carry_one (fs r) p _ (track_method o r) (t_force o)) as [f2 oc]. cbn [fst recs set_fs].
+    exists (next_ent r), x0, (digest_of (cfg_algo r) (track_tob o r) c).
+    split; [apply (find_path_radd_same r x0 R Ef)|cbn].
+    split; [reflexivity|split; [discriminate|split; [reflexivity|auto]]].
+Qed.
+
+(* C01/C17: a track that commits its target: the record names the object, the object and the
+   workspace entry read the same bytes c', the entry is materialised with the requested (else
+   configured) method; c' is what was in the workspace unless the content met an alias *)
+Theorem track_commits o r p a m : INV r -> track_one_call o (walked_of [p]) r p = Some (a, m) ->
+  unclean (fs r) p a (t_force o) = false ->
+  let r' := fst (do_item r (XTrack o [p])) in
+  snd (do_item r (XTrack o [p])) = Ok /\ m = track_method o r /\
+  exists c', committed r' p c' /\ materialised (fs r') p a m c' /\
+             (alias_meet (fs r) p a (t_force o) = false -> ws_read (fs r) p = Some c').
+Proof.
+  intros [F R] Hc G. cbv zeta. destruct (do_track_single o r p) as [E1 E2]. rewrite E1, E2.
+  set (w := walked_of [p]) in *.
+  destruct (track_one_spec o w r p R) as (S1 & S2 & S3 & S4). rewrite Hc in S4.
+  destruct S4 as (Efs & Eoc & Hfit & Hw).
+  destruct (track_one_record o w r p a m R Hc) as (e & x & d & Ef & Hp & Hm & Hd & -> & Hmm & Hmo & Hnd).
+  unfold unclean in G. apply orb_false_iff in G. destruct G as [G1 G2].
+  destruct (carry_one_ok (fs r) p (cache_addr p d) m (t_force o) F G1 Hfit Hw Hnd) as (K1 & i & n & K2 & K3 & K4 & K5).
+  rewrite Eoc, Efs. split; [auto|split; [auto|]]. exists (i_bytes n). split; [|split; [auto|]].
+  - exists e, x, d. split; [auto|split; [auto|split; [auto|]]]. rewrite Efs.
+    pose proof (carry_one_spec (fs r) p (cache_addr p d) m (t_force o) F G1 Hfit) as S.
+    apply obj_read_spec; [apply (cs_FI S)|eauto].
+  - intros Ha. destruct (ws_read (fs r) p) as [c|] eqn:Er.
+    + now rewrite (K5 Ha c eq_refl).
+    + exfalso. destruct (wget (fs r) p) as [en|] eqn:Ew; [|congruence].
+      destruct Hnd as [Hn|Hex]; [congruence|]. unfold ws_exists in Hex. rewrite Ew in Hex.
+      unfold ws_read in Er. rewrite Ew in Er. unfold read_entry in Er.
+      destruct (resolve (fs r) link_fuel en) as [i0|] eqn:Eres; [|discriminate].
+      (* the resolved inode exists: a file entry has one, a link resolves through an object *)
+      destruct en as [i1|b].
+      * rewrite resolve_file in Eres. injection Eres as <-.
+        destruct (iget (fs r) i1) eqn:Ei; [discriminate|]. eapply (fi_ws F); eauto.
+      * unfold link_fuel in Eres. rewrite resolve_link in Eres.
+        destruct (oget (fs r) b) as [eb|] eqn:Eb; [|discriminate].
+        destruct (fi_obj F _ _ Eb) as (ib & nb & -> & Hib & _). rewrite resolve_file in Eres. injection Eres as <-.
+        rewrite Hib in Er. discriminate.
+Qed.
+
+(* ---- committed content stays restorable --------------------------------------------------------------------- *)
+Definition mem_path (p : path) (ps : list path) : bool := existsb (beqb p) ps.
+(* items that cannot change what is committed for p: user actions, any recheck, and track / carry-in
+   without --force that do not name p *)
+Definition harmless (p : path) (it : item) : bool :=
+  match it with
+  | XTrack o ps => negb (t_force o) && negb (mem_path p ps)
+  | XCarryIn o ps => negb (c_force o) && negb (mem_path p ps)
+  | _ => true
+  end.
+
+Lemma mem_path_false p ps : mem_path p ps = false -> ~ In p ps.
+Proof.
+  unfold mem_path. intros H Hin. assert (existsb (beqb p) ps = true); [|congruence].
+  apply existsb_exists. exists p. split; auto. apply beqb_refl.
+Qed.
+
+Lemma harmless_unforced p it : harmless p it = true -> unforced it = true.
+Proof. destruct it; cbn; auto; intros H; apply andb_true_iff in H; tauto. Qed.
+
+Lemma each_track_frame o w ps : forall r, INV r -> mon_each (track_one o w) (mon_track_one unclean o w) r ps = false ->
+  forall q, ~ In q ps -> find_path (recs (fst (each (track_one o w) r ps))) q = find_path (recs r) q.
+Proof.
+  induction ps as [|p t IH]; intros r I G q Hq; [reflexivity|].
+  cbn [mon_each] in G. apply orb_false_iff in G. destruct G as [G1 G2].
+  destruct (track_one_step o w r p I G1) as (T1 & T2 & T3 & T4 & T5 & T6 & T7 & T8 & T9).
+  destruct (each_cons (track_one o w) r p t) as [E _]. rewrite E.
+  rewrite IH; auto; [|intros Hin; apply Hq; now right].
+  apply T9. intros ->. apply Hq. now left.
+Qed.
+
+Lemma paths_of_plans o r ps q : In q (paths_of (plans o r ps)) -> In q ps.
+Proof.
+  induction ps as [|p t IH]; cbn; auto.
+  destruct (carry_plan o r p) as [c|] eqn:E; cbn; [|auto].
+  intros [H|H]; auto. left. destruct (carry_plan_rec o r p c E) as [_ Hp]. congruence.
+Qed.
+
+Lemma view_core_some v v' e x : view_core v' = view_core v -> v = Some (e, x) ->
+  exists x', v' = Some (e, x') /\ rec_core x' = rec_core x.
+Proof.
+  intros H ->. destruct v' as [[e' x']|]; cbn in H; [|discriminate].
+  injection H as -> H. exists x'. split; [reflexivity|]. unfold rec_core. congruence.
+Qed.
+
+Lemma committed_step r it p c : INV r -> mon_item unclean r it = false -> harmless p it = true ->
+  committed r p c -> committed (fst (do_item r it)) p c.
+Proof.
+  intros I G Hh (e & x & d & Ef & Hm & Hd & Hr).
+  destruct (item_spec r it I G) as ([F' R'] & _ & M & _ & _).
+  destruct (M (harmless_unforced p it Hh)) as [M1 M2].
+  pose proof I as [F R].
+  assert (Hr' : obj_read (fs (fst (do_item r it))) (cache_addr p d) = Some c).
+  { apply (obj_read_spec _ _ _ F) in Hr. destruct Hr as (i & n & Ho & Hi & <-).
+    destruct (M2 _ i n Ho Hi) as (i' & n' & K1 & K2 & K3). apply obj_read_spec; eauto. }
+  assert (V : view_core (find_path (recs (fst (do_item r it))) p) = view_core (find_path (recs r) p)).
+  { destruct it as [q b|q b|q|q|o ps|o ps|o ps]; try reflexivity.
+    - cbn [harmless] in Hh. apply andb_true_iff in Hh. destruct Hh as [_ Hh]. apply negb_true_iff in Hh.
+      cbn [do_item mon_item] in *. f_equal. apply each_track_frame; auto. now apply mem_path_false.
+    - cbn [harmless] in Hh. apply andb_true_iff in Hh. destruct Hh as [_ Hh]. apply negb_true_iff in Hh.
+      apply mem_path_false in Hh.
+      cbn [do_item mon_item] in *. unfold carry_in_cmd.
+      destruct (existsb _ (plans o r ps)); [reflexivity|].
+      destruct (carry_phase (fs r) (plans o r ps) (c_force o)) as [f1 oc].
+      destruct oc; try reflexivity. cbn [fst].
+      destruct (record_phase_spec (plans o r ps) (set_fs r f1) (RI_set_fs r f1 R)) as (B1 & B2 & B3 & B4).
+      { intros c0 Hin. pose proof (plans_rec o r ps c0 Hin) as Hf.
+        apply (find_path_spec r _ _ _ R) in Hf. destruct Hf as [Hg Hp]. exists (cp_rec c0). auto. }
+      f_equal. rewrite B4; [reflexivity|]. intros Hin. apply Hh. eapply paths_of_plans; eauto.
+    - apply recheck_keeps_records; auto. }
+  destruct (view_core_some _ _ e x V Ef) as (x' & Ef' & Hc).
+  unfold rec_core in Hc. injection Hc as H1 H2 H3 H4 H5.
+  exists e, x', d. split; [auto|split; [congruence|split; [congruence|auto]]].
+Qed.
+
+Theorem committed_run h : forall r p c, INV r -> mon_run unclean r h = false -> forallb (harmless p) h = true ->
+  committed r p c -> committed (run_items r h) p c.
+Proof.
+  induction h as [|it t IH]; intros r p c I G H C; [exact C|].
+  cbn [mon_run] in G. apply orb_false_iff in G. destruct G as [G1 G2].
+  cbn [forallb] in H. apply andb_true_iff in H. destruct H as [H1 H2].
+  rewrite run_items_cons. apply IH; auto.
+  - apply (item_spec r it I G1).
+  - apply committed_step; auto.
+Qed.
+
+(* C01 over histories: what is committed for p in a reachable repository is restored byte for byte by
+   delete + recheck (any method, with or without --force) after ANY later history of user actions,
+   rechecks, and unforced track / carry-in commands on other paths *)
+Theorem stays_restorable r h p c o : reachable r -> committed r p c ->
+  mon_run unclean r h = false -> forallb (harmless p) h = true ->
+  ws_read (fs (run_items (run_items r h) [UDelete p; XRecheck o [p]])) p = Some c.
+Proof.
+  intros Hr C G H. pose proof (reachable_INV r Hr) as I.
+  apply restore_after_delete.
+  - apply inv_run; auto.
+  - apply committed_run; auto.
+Qed.
+
+(* ---- C17 ------------------------------------------------------------------------------------------------------ *)
+(* recheck materialises the entry with the requested, else the stored method *)
+Theorem recheck_materialises r p c o : INV r -> committed r p c ->
+  exists e x d, find_path (recs r) p = Some (e, x) /\ r_digest x = Some d /\
+  let r1 := run_items r [UDelete p; XRecheck o [p]] in
+  materialised (fs r1) p (cache_addr p d) (recheck_method o x) c /\
+  find_path (recs r1) p = Some (e, with_method x (recheck_method o x)).
+Proof.
+  intros I C. destruct (committed_inode r p c I C) as (e & x & sm & d & i & n & Ef & Hm & Hd & Ho & Hi & Hc).
+  exists e, x, d. split; [auto|split; [auto|]].
+  cbv zeta. unfold run_items. cbn [fold_left].
+  change (fst (do_item r (UDelete p))) with (set_fs r (user_delete (fs r) p)).
+  set (r0 := set_fs r (user_delete (fs r) p)).
+  assert (I0 : INV r0).
+  { destruct I as [F R]. split; [apply FI_user_delete, F|now apply RI_set_fs]. }
+  assert (W0 : wget (fs r0) p = None) by (unfold r0; rewrite set_fs_fs; unfold user_delete; rewrite wget_wdel; now rewrite beqb_refl).
+  pose proof (proj1 (find_path_spec r p e x (proj2 I)) Ef) as [_ Hp].
+  destruct (recheck_one_ok o r0 p e x sm d i n I0 Ef Hm Hd Ho Hi) as (K1 & K2 & K4).
+  - eapply selected_missing; eauto. rewrite Hp. unfold ws_meta. now rewrite W0.
+  - now left.
+  - destruct (do_recheck_single o r0 p) as [E1 E2]. rewrite E1. subst c. auto.
+Qed.
+
+(* rechecking an unmodified, present entry with ANOTHER method replaces the entry accordingly *)
+Theorem method_change_replaces_entry r p c m e x d : INV r -> committed r p c ->
+  find_path (recs r) p = Some (e, x) -> r_digest x = Some d -> m <> r_method x ->
+  ws_exists (fs r) p = true -> (forall d', digest_diff r x (cfg_algo r) (r_tob x) <> DDifferent d') ->
+  let o := {| k_method := Some m; k_force := false |} in
+  materialised (fs (fst (do_item r (XRecheck o [p])))) p (cache_addr p d) m c /\
+  find_path (recs (fst (do_item r (XRecheck o [p])))) p = Some (e, with_method x m).
+Proof.
+  intros I C Ef Hd Hm Hex Hdd. cbv zeta.
+  destruct (committed_inode r p c I C) as (e' & x' & sm & d' & i & n & Ef' & Hmm & Hd' & Ho & Hi & Hc).
+  rewrite Ef in Ef'. injection Ef' as <- <-. rewrite Hd in Hd'. injection Hd' as <-.
+  set (o := {| k_method := Some m; k_force := false |}).
+  destruct (recheck_one_ok o r p e x sm d i n I Ef Hmm Hd Ho Hi) as (K1 & K2 & K4).
+  - apply selected_method; auto.
+  - now right.
+  - destruct (do_recheck_single o r p) as [E1 E2]. rewrite E1. subst c. auto.
+Qed.
+
+(* the method recorded by a recheck is the one a later plain recheck uses *)
+Theorem stored_method_used_next_time r p c m : INV r -> committed r p c ->
+  let r1 := run_items r [UDelete p; XRecheck {| k_method := Some m; k_force := false |} [p]] in
+  let r2 := run_items r1 [UDelete p; XRecheck {| k_method := None; k_force := false |} [p]] in
+  exists d, materialised (fs r2) p (cache_addr p d) m c.
+Proof.
+  intros I C. cbv zeta.
+  set (o1 := {| k_method := Some m; k_force := false |}). set (o2 := {| k_method := None; k_force := false |}).
+  destruct (recheck_materialises r p c o1 I C) as (e & x & d & Ef & Hd & K1 & K2). cbv zeta in K1, K2.
+  destruct (restore_after_delete r p c o1 I C) as [_ C1]. cbv zeta in C1.
+  set (r1 := run_items r [UDelete p; XRecheck o1 [p]]) in *.
+  assert (I1 : INV r1).
+  { unfold r1. apply inv_run; auto. }
+  destruct (recheck_materialises r1 p c o2 I1 C1) as (e2 & x2 & d2 & Ef2 & Hd2 & L1 & L2). cbv zeta in L1.
+  rewrite K2 in Ef2. injection Ef2 as <- <-. cbn in Hd2. rewrite Hd in Hd2. injection Hd2 as <-.
+  exists d. exact L1.
+Qed.
+
+(* editing a copy never changes a cache object *)
+Theorem copy_independent f p a m c c2 b : FI f -> (m = Copy \/ m = Reflink) -> materialised f p a m c ->
+  obj_read (user_write_through f p c2) b = obj_read f b /\ ws_read (user_write_through f p c2) p = Some c2.
+Proof.
+  intros F Hm [Hr M].
+  assert (M' : exists i n, wget f p = Some (EFile i) /\ iget f i = Some n /\ i_w n = true /\ (forall b, oget f b <> Some (EFile i)))
+    by (destruct Hm as [-> | ->]; exact M).
+  destruct M' as (i & n & Hw & Hi & Hwr & Hno).
+  unfold user_write_through. rewrite Hw, resolve_file, Hi, Hwr.
+  split.
+  - unfold obj_read. autorewrite with fsdb. destruct (oget f b) as [e|] eqn:Eo; auto.
+    destruct (fi_obj F _ _ Eo) as (j & nj & -> & Hj & _). rewrite !read_file. autorewrite with fsdb.
+    destruct (N.eqb_spec i j) as [E|]; auto. subst j. exfalso. eapply Hno; eauto.
+  - unfold ws_read. autorewrite with fsdb. rewrite Hw, read_file. autorewrite with fsdb. now rewrite N.eqb_refl.
+Qed.
+
+(* contrast: a hard link IS the cache object: the same inode, read-only; a write through the entry
+   is refused, and if the permission were lifted it would change the object *)
+Theorem hardlink_shares_object f p a c : FI f -> materialised f p a Hardlink c ->
+  (exists i, wget f p = Some (EFile i) /\ oget f a = Some (EFile i)) /\
+  forall c2, user_write_through f p c2 = f.
+Proof.
+  intros F [Hr (i & n & Hw & Ho & Hi & Hwr)]. split; [eauto|].
+  intros c2. unfold user_write_through. now rewrite Hw, resolve_file, Hi, Hwr.
+Qed.
+
+(* a symlink reads the object it points to *)
+Theorem symlink_reads_object f p a c : FI f -> materialised f p a Symlink c -> wget f p = Some (ELink a) /\ obj_read f a = Some c.
+Proof.
+  intros F [Hr Hw]. split; auto. unfold ws_read in Hr. rewrite Hw in Hr. unfold read_entry, link_fuel in Hr.
+  rewrite resolve_link in Hr. unfold obj_read. destruct (oget f a) as [e|] eqn:Eo; [|discriminate].
+  destruct (fi_obj F _ _ Eo) as (j & nj & -> & Hj & _). rewrite resolve_file in Hr. now rewrite read_file.
+Qed.
+
+(* C01 end to end for one path: commit by track, then delete and recheck *)
+Lemma mon_item_track_single bad o r p :
+  mon_item bad r (XTrack o [p]) =
+  match track_one_call o (walked_of [p]) r p with Some (a, _) => bad (fs r) p a (t_force o) | None => false end.
+Proof. cbn [mon_item mon_each]. unfold mon_track_one. destruct (track_one_call o (walked_of [p]) r p) as [[a m]|]; auto using orb_false_r. Qed.
+
+Theorem track_then_restore o r p a m c ko : INV r -> track_one_call o (walked_of [p]) r p = Some (a, m) ->
+  unclean (fs r) p a (t_force o) = false -> alias_meet (fs r) p a (t_force o) = false ->
+  ws_read (fs r) p = Some c ->
+  ws_read (fs (run_items r [XTrack o [p]; UDelete p; XRecheck ko [p]])) p = Some c.
+Proof.
+  intros I Hc G Ha Hr. rewrite run_items_cons.
+  destruct (track_commits o r p a m I Hc G) as (K1 & K2 & c' & C & M & E). cbv zeta in C, M.
+  specialize (E Ha). rewrite Hr in E. injection E as <-.
+  apply restore_after_delete; auto.
+  apply (item_spec r (XTrack o [p]) I). rewrite mon_item_track_single, Hc. exact G.
 Qed.
